@@ -6,7 +6,7 @@ from sqlparse import lexer, tokens as T
 
 RULE = ('inputs: corpus, g2/g3 mixed junk, grammar scripts with random layout; every returned piece is re-fed to split(); '
         'border sweep: every whitespace code point of str.isspace() and every odd code point of gen.ODD at every piece border of four templates; '
-        'long scripts across every usual block size (4 KiB .. 64 KiB, thorough 1 MiB) with semicolons, blank lines and line ends inside literals, comments and blocks; '
+        'directive lines of the common SQL clients (DELIMITER, GO, /, \\g, @file, SET TERM, …) before/between/after statements; long scripts across every usual block size (4 KiB .. 64 KiB, thorough 1 MiB) with semicolons, blank lines and line ends inside literals, comments and blocks; '
         'non-trivial = distinct input with at least two pieces')
 ASSUMPTIONS = ['splitter model tied by S-SPLIT (sampled) and S-CSL (exhaustive)', 'lexer model tied by S-LEX/S-RE (C01)']
 ALSO_THEOREMS = [('SqlProps.C02', ['Sql.C02.split_is_stripped_parse', 'Sql.C02.parse_fails_only_where_split_fails_or_depth'])]
@@ -109,9 +109,31 @@ def long_texts(ctx):
     return out
 
 
+# --- second red-team pass: statement-separator conventions of the common SQL clients ---------------------------------------------------
+DIRECTIVES = ['DELIMITER //', 'delimiter $$', 'DELIMITER ;', 'DELIMITER ;;', 'Delimiter |', '/', '\\g', '\\G', '\\.', '\\q', '\\c db', '\\i f.sql', '\\copy t from f', 'GO', 'go 3', 'Go',
+              '@script.sql', '@@nested.sql', '.mode csv', '.read f.sql', 'SET TERM ^ ;', 'SET TERM ; ^', 'EXIT', 'QUIT', 'USE db1', 'SOURCE f.sql', 'PROMPT done', 'SPOOL out.txt',
+              'CONNECT a/b', ':setvar x y', ':r f.sql', 'BEGIN', 'END', 'COMMIT', '--;', ';;', '-- GO', 'REM remark', 'WHENEVER SQLERROR EXIT', 'SHOW ERRORS', '$$', '//', '^', '|']
+
+
+def directive_texts():
+    """scripts as SQL clients see them: directive lines (delimiter changes, batch separators, meta commands) before, between and after
+    statements, and statements terminated by the announced delimiter; split() and parse() must still see the same statements, in place"""
+    out = []
+    for d in DIRECTIVES:
+        tok = d.split()[1] if d.lower().startswith('delimiter') and len(d.split()) > 1 else ';'
+        out.append('%s\nselect 1;\nselect 2;' % d)
+        out.append('select 1;\n%s\nselect 2' % d)
+        out.append('select 1;\nselect 2;\n%s\n' % d)
+        out.append('%s\ncreate procedure p() begin select 1; select 2; end %s\n%s\nselect 3;' % (d, tok, 'DELIMITER ;' if tok != ';' else d))
+        out.append('select 1 %s\nselect 2 %s\n' % (tok, tok))
+        out.append('  %s  \r\nselect 1%s\r\n%s\r\nselect 2' % (d, tok, d))
+    return out
+
+
 def run(ctx):
     rng = ctx.rng
     ins = [c['input'] for c in streams.corpus('C04')]
+    ins += directive_texts()
     ins += [gen.mixed(rng) for _ in range(ctx.n(3000, 60000))]
     ins += [gen.gsplit(rng) for _ in range(ctx.n(4000, 150000))]
     g = grammar.Gen(rng)
